@@ -122,6 +122,10 @@ DYADIC = [0.0, 0.25, 0.5, 0.75, 1.0]
 # ---------------------------------------------------------------------------- generation
 def gen_case(rng, backend, mode):
     lt = rng.choice(["dedupe_only", "link_only", "link_and_dedupe"])
+    if backend == "sqlite" and mode == "table":
+        # lower_id_on_lhs emits concat(), which the bundled SQLite (< 3.44) does not have: the real
+        # labels-table functions raise loudly for jobs with a source-dataset column (outside C15)
+        lt = "dedupe_only"
     ntab = 1 if lt == "dedupe_only" else rng.choice([2, 2, 3])
     names = ["ta", "tb", "tc"][:ntab]
     dom_a = ["x", "y", "xz", None]
